@@ -18,6 +18,7 @@ rc=0
 for c in "$@"; do
   VERIF_REPO=$ROOT/repo VERIF_HARNESS_DIR=$ROOT/harness VERIF_WORKDIR=$ROOT/work VERIF_EVIDENCE_DIR=$ROOT/evidence /verif/check $c ${MUT_TIER:+--tier $MUT_TIER} || rc=1
 done
+if [ -n "$MUT_KEEP" ]; then mkdir -p /tmp/mutkeep && rm -rf /tmp/mutkeep/work && cp -r $ROOT/work /tmp/mutkeep/work; fi
 git -C /repo worktree remove --force $ROOT/repo
 rm -rf $ROOT
 # restore generated tables for the real tree
